@@ -4,7 +4,7 @@
    Python code is an explicit lookup whose failure is [Err IndexError]; the three offset-driven main loops run on
    fuel [S (length lines)] and report [Err OutOfFuel] when it runs out. *)
 From Coq Require Import List ZArith String Bool Arith.
-From Verif Require Import Lib.Sexp Model.C12_docstrings Proofs.C12_docstrings Model.C12_regex Gen.C12_regexes Proofs.C12_regex Proofs.C12_regex2 Model.C12_chars Model.C12_run Proofs.C12_chars.
+From Verif Require Import Lib.Sexp Model.C12_docstrings Proofs.C12_docstrings Model.C12_regex Gen.C12_regexes Proofs.C12_regex Proofs.C12_regex2 Model.C12_chars Model.C12_run Proofs.C12_chars Model.C12_history Proofs.C12_history.
 Import ListNotations.
 Open Scope list_scope. Open Scope nat_scope.
 
@@ -231,3 +231,35 @@ Print Assumptions C12_repo_regexes_bounded.
 Theorem C12_model_subjects_well_formed : forall s t, dec_text s = Some t -> wf_text t.
 Proof. exact dec_text_wf. Qed.
 Print Assumptions C12_model_subjects_well_formed.
+
+(* ---- no hidden state: histories of parses, assignments to value / parser / parser_options and reads of parsed /
+   lines on ONE docstring.  After any history, parse(style, **options) returns what a fresh docstring carrying the
+   current attributes returns, which is the pure function of the current text, the effective style and the
+   effective options; lines are those of the current value; parsed is computed once (documented caching). ---- *)
+Theorem C12_history_parse_equals_fresh :
+  forall p pa st ops s o,
+    let '(cl, s0, o0) := fields_after (d_lines st) (d_parser st) (d_opts st) ops in
+    snd (step p pa (fst (exec p pa st ops)) (OParse s o)) = snd (step p pa (fresh cl s0 o0) (OParse s o)).
+Proof. exact history_parse_equals_fresh. Qed.
+Print Assumptions C12_history_parse_equals_fresh.
+
+Theorem C12_history_parse_is_function_of_current_state :
+  forall p pa st ops s o,
+    let '(cl, s0, o0) := fields_after (d_lines st) (d_parser st) (d_opts st) ops in
+    snd (step p pa (fst (exec p pa st ops)) (OParse s o)) = ObsParse (parse_pure p pa cl (pick_style s s0) (pick o o0)).
+Proof. exact history_parse_is_parse_pure. Qed.
+Print Assumptions C12_history_parse_is_function_of_current_state.
+
+Theorem C12_history_lines_current :
+  forall p pa st ops,
+    let '(cl, _, _) := fields_after (d_lines st) (d_parser st) (d_opts st) ops in
+    snd (step p pa (fst (exec p pa st ops)) OReadLines) = ObsLines cl.
+Proof. exact history_lines_current. Qed.
+Print Assumptions C12_history_lines_current.
+
+Theorem C12_history_parsed_cached :
+  forall p pa st ops,
+    let st1 := fst (step p pa st OReadParsed) in
+    snd (step p pa (fst (exec p pa st1 ops)) OReadParsed) = snd (step p pa st1 OReadParsed).
+Proof. exact history_parsed_cached. Qed.
+Print Assumptions C12_history_parsed_cached.
